@@ -14,7 +14,9 @@ This file is the executable model of that shape, generic in the table of operato
 * `parseIf T fuel ts`, `loopIf` — `ifExpression`, the rung above the chains: `a, falls c, ansonsten b`, where the condition and
   the alternative are whole `ifExpression`s again (the loop rebinds, but the alternative has taken every further `, falls`
   already: chains nest to the right); parentheses restart here;
-* `pp T k e` / `ppI T e` — the printer with **minimal parentheses** (operand of chain rung `k` / where a whole expression stands) the program generator uses (`vlib/gen.py: pp_expr(e, minimal,
+* `parseX T fuel ts` — `boolXOR`, between the two: the prefix form `entweder a, oder b` (it returns after one application:
+  there is no chain), or else the loosest chain rung;
+* `pp T k e` / `ppX T e` / `ppI T e` — the printer with **minimal parentheses** (operand of chain rung `k` / value operand of a conditional expression / where a whole expression stands) the program generator uses (`vlib/gen.py: pp_expr(e, minimal,
   need)`): an operand is parenthesised exactly when its own rung is looser than the rung the position asks for; the left
   operand of a chain asks for the rung itself, the right operand for the next tighter one.
 
@@ -36,6 +38,8 @@ inductive Tok
   | rp
   | falls      -- `, falls`
   | sonst      -- `, ansonsten`
+  | entw       -- `entweder`
+  | oderk      -- `, oder`
   deriving DecidableEq, Repr
 
 /-- syntax trees (a `Grouping` node is not kept: parentheses only steer the parser) -/
@@ -44,6 +48,7 @@ inductive E
   | un (u : Nat) (e : E)
   | bin (o : Nat) (l r : E)
   | ite (a c b : E)          -- `a, falls c, ansonsten b`
+  | xor (a b : E)            -- `entweder a, oder b`
   deriving DecidableEq, Repr
 
 /-- the operator table: `n` chain rungs (0 loosest), `lv o` the rung whose loop tests for operator `o` -/
@@ -61,6 +66,12 @@ def closeParen (p : E × List Tok) : Option (E × List Tok) :=
 def expectSonst (p : E × List Tok) : Option (E × List Tok) :=
   match p.2 with
   | .sonst :: rest' => some (p.1, rest')
+  | _ => none
+
+/-- after the first operand of `entweder`: `, oder` must follow -/
+def expectOderk (p : E × List Tok) : Option (E × List Tok) :=
+  match p.2 with
+  | .oderk :: rest' => some (p.1, rest')
   | _ => none
 
 mutual
@@ -90,7 +101,16 @@ def loop (T : Tbl) : Nat → Nat → E → List Tok → Option (E × List Tok)
 /-- `ifExpression`: the value from the loosest chain rung, then the loop over `, falls` -/
 def parseIf (T : Tbl) : Nat → List Tok → Option (E × List Tok)
   | 0, _ => none
-  | f+1, ts => (parse T f 0 ts).bind (fun p => loopIf T f p.1 p.2)
+  | f+1, ts => (parseX T f ts).bind (fun p => loopIf T f p.1 p.2)
+/-- `boolXOR`: the prefix form `entweder a, oder b` (both operands from the loosest chain rung; it returns, there is no chain),
+or else the loosest chain rung itself -/
+def parseX (T : Tbl) : Nat → List Tok → Option (E × List Tok)
+  | 0, _ => none
+  | f+1, ts =>
+    match ts with
+    | .entw :: rest =>
+      ((parse T f 0 rest).bind expectOderk).bind (fun pa => (parse T f 0 pa.2).bind (fun pb => some (.xor pa.1 pb.1, pb.2)))
+    | _ => parse T f 0 ts
 /-- the loop of `ifExpression`: condition and alternative are whole `ifExpression`s again -/
 def loopIf (T : Tbl) : Nat → E → List Tok → Option (E × List Tok)
   | 0, _, _ => none
@@ -106,20 +126,30 @@ end
 def wrap (b : Bool) (ts : List Tok) : List Tok := if b then .lp :: (ts ++ [.rp]) else ts
 
 mutual
-/-- print `e` as an operand of a position that asks for chain rung `k` — minimal parentheses; a conditional expression is
-looser than every chain rung -/
+/-- print `e` as an operand of a position that asks for chain rung `k` — minimal parentheses; a conditional expression and
+`entweder …, oder …` are looser than every chain rung -/
 def pp (T : Tbl) (k : Nat) : E → List Tok
   | .atom a => [.atom a]
   | .un u e => .uop u :: pp T T.n e
   | .bin o l r => wrap (decide (T.lv o < k)) (pp T (T.lv o) l ++ .bop o :: pp T (T.lv o + 1) r)
-  | .ite a c b => .lp :: ((pp T 0 a ++ .falls :: (ppI T c ++ .sonst :: ppI T b)) ++ [.rp])
+  | .ite a c b => .lp :: ((ppX T a ++ .falls :: (ppI T c ++ .sonst :: ppI T b)) ++ [.rp])
+  | .xor a b => .lp :: ((.entw :: (pp T 0 a ++ .oderk :: pp T 0 b)) ++ [.rp])
+/-- print `e` as the value operand of a conditional expression (`boolXOR`): `entweder` needs no parentheses there, a
+conditional expression does -/
+def ppX (T : Tbl) : E → List Tok
+  | .atom a => [.atom a]
+  | .un u e => .uop u :: pp T T.n e
+  | .bin o l r => pp T (T.lv o) l ++ .bop o :: pp T (T.lv o + 1) r
+  | .ite a c b => .lp :: ((ppX T a ++ .falls :: (ppI T c ++ .sonst :: ppI T b)) ++ [.rp])
+  | .xor a b => .entw :: (pp T 0 a ++ .oderk :: pp T 0 b)
 /-- print `e` where a whole `ifExpression` is expected (top level, inside parentheses, condition and alternative of a
 conditional expression) -/
 def ppI (T : Tbl) : E → List Tok
   | .atom a => [.atom a]
   | .un u e => .uop u :: pp T T.n e
   | .bin o l r => pp T (T.lv o) l ++ .bop o :: pp T (T.lv o + 1) r
-  | .ite a c b => pp T 0 a ++ .falls :: (ppI T c ++ .sonst :: ppI T b)
+  | .ite a c b => ppX T a ++ .falls :: (ppI T c ++ .sonst :: ppI T b)
+  | .xor a b => .entw :: (pp T 0 a ++ .oderk :: pp T 0 b)
 end
 
 /-- every binary operator of the tree belongs to one of the chain rungs -/
@@ -128,12 +158,14 @@ def wf (T : Tbl) : E → Prop
   | .un _ e => wf T e
   | .bin o l r => T.lv o < T.n ∧ wf T l ∧ wf T r
   | .ite a c b => wf T a ∧ wf T c ∧ wf T b
+  | .xor a b => wf T a ∧ wf T b
 
 def wfDec (T : Tbl) : (e : E) → Decidable (wf T e)
   | .atom _ => isTrue trivial
   | .un _ e => wfDec T e
   | .bin _ l r => @instDecidableAnd _ _ (Nat.decLt _ _) (@instDecidableAnd _ _ (wfDec T l) (wfDec T r))
   | .ite a c b => @instDecidableAnd _ _ (wfDec T a) (@instDecidableAnd _ _ (wfDec T c) (wfDec T b))
+  | .xor a b => @instDecidableAnd _ _ (wfDec T a) (wfDec T b)
 
 instance (T : Tbl) (e : E) : Decidable (wf T e) := wfDec T e
 
@@ -148,7 +180,7 @@ def okRestI (rest : List Tok) : Prop :=
 /-- the whole-input entry: `ifExpression`, nothing may be left over. The fuel is the bound of `fuel_suffices` (every call
 either moves to a tighter rung or has consumed a token), so this function *is* the ladder, not an approximation of it. -/
 def parseAll (T : Tbl) (ts : List Tok) : Option E :=
-  match parseIf T (ts.length * (T.n + 4) + (T.n + 2)) ts with
+  match parseIf T (ts.length * (T.n + 5) + (T.n + 3)) ts with
   | some (e, []) => some e
   | _ => none
 
